@@ -21,9 +21,9 @@ Proved here, over the abstract instantiation:
 * `sVector_length`, `verificationScalars_lengths` — the vectors fed to the multiscalar
                           multiplication have equal lengths (no size-hint assertion can fire; used by C08).
 
-Not proved (stated in DESIGN.md): knowledge soundness of Bulletproofs (an extractor), and
-completeness of the aggregated prover for arbitrary splits (the executable model prover is
-validated against the Rust verifier instead).
+Not proved (stated in DESIGN.md): knowledge soundness of Bulletproofs (an extractor).
+Completeness of the aggregated prover for every admissible split is `Zk.Props.C05.Range.complete`
+(built on `Zk.Range.prove_complete` in `Proofs/RangeProve.lean`).
 -/
 set_option linter.unusedSectionVars false
 namespace Zk.Props.C04
